@@ -16,7 +16,7 @@ type c17 struct{}
 func init() { register(c17{}) }
 
 func (c17) ID() string           { return "C17" }
-func (c17) Runs(tier string) int { return tierLen(tier, 1200, 16000) }
+func (c17) Runs(tier string) int { return tierLen(tier, 2000, 16000) }
 
 func genMultiTask(r *kern.Rng, maxLen int) MultiTask {
 	if r.Bool() {
